@@ -18,6 +18,9 @@ func init() { register("C04", checkC04) }
 var sm3IV = [8]uint32{0x7380166f, 0x4914b2b9, 0x172442d7, 0xda8a0600, 0xa96f30bc, 0x163138aa, 0xe38dee4d, 0xb0fb0e4e}
 
 func checkC04(c *Ctx) {
+	if n := narrowShift(c, "K-NARROW-shift", []string{"sm3"}); n >= 0 {
+		c.Holds("K-NARROW-shift", "sm3", "no 8/16-bit value is shifted left by its width or more", fmt.Sprintf("%d narrow left shifts inspected", n), token.NoPos)
+	}
 	defer noGlobalAlias(c, "FX-C04-pure", [][2]string{{"sm3", "New"}}, "hash objects made by New share their buffered tail with each other")
 	defer noGlobalWrites(c, "FX-C04-pure", [][2]string{{"sm3", "New"}, {"sm3", "Sm3Sum"}, {"sm3", "(*SM3).Write"}, {"sm3", "(*SM3).Sum"}, {"sm3", "(*SM3).Reset"}},
 		"hash objects share state through the package — e.g. a template state whose tail slice every New/Reset copies by reference, or a pooled pad buffer")
@@ -1026,6 +1029,24 @@ func c04Stream(c *Ctx, write *ssa.Function) {
 		}
 	}
 	c.Check(okCall, rule, fname(write), "compress(tail||p)", "", "Write does not pass tail||p to the compression routine", write.Pos())
+	// ... and while a tail is buffered (len(tail) >= 1) no compression call gets anything else: a fast path that hashes
+	// p alone skips the buffered bytes (decided on values: a fast path guarded by an empty tail stays unreachable)
+	cix := newCondIndex(write, map[ssa.Value]string{recv: "recv", p: "p"})
+	bad := token.NoPos
+	cix.withInterval("len(recv."+tailField+")", 1, 0, func() {
+		live := reach([]*ssa.BasicBlock{write.Blocks[0]}, deadEdges(write))
+		for _, ci := range allCalls(write) {
+			callee := ci.Common().StaticCallee()
+			if callee == nil || !hasRoundLoop(callee) || !live[ci.Block()] {
+				continue
+			}
+			if args := ci.Common().Args; len(args) != 2 || env.canon(args[1]).String() != msg {
+				bad = ci.Pos()
+			}
+		}
+	})
+	c.Evals += len(cix.conds)
+	c.Check(bad == token.NoPos, rule, fname(write), "with a buffered tail every compression call gets tail||p", "", "with len("+tailField+") >= 1 a compression call that is not given tail||p is reachable: the buffered bytes are skipped or hashed out of order", bad)
 	// Write returns len(p), nil
 	for _, b := range write.Blocks {
 		if r, ok := b.Instrs[len(b.Instrs)-1].(*ssa.Return); ok {
